@@ -140,7 +140,13 @@ pub fn check(tier: &str) -> i32 {
     let alpha: Vec<A> = if tier == "quick" { vec![A::S0, A::S1, A::Flush, A::Compact, A::Restart, A::Show] } else { vec![A::S0, A::Sms, A::S1, A::Flush, A::Compact, A::Restart, A::Show] };
     let d = if tier == "quick" { 3 } else { 4 };
     let qs: Vec<&'static str> = if tier == "quick" { vec!["QUERY a", "QUERY a WHERE k >= 1"] } else { vec!["QUERY a", "QUERY a WHERE k >= 1", "QUERY a FOR c0", "QUERY a RETURN [k]"] };
-    let cfgs = vec![SysConfig { fill_factor: 2, event_per_zone: 1, ..Default::default() }, SysConfig { fill_factor: 4, event_per_zone: 2, shards: 2, ..Default::default() }];
+    // the third configuration keeps several events in one zone of one shard, so that a zone can
+    // straddle the high-water mark (older and newer events flushed together)
+    let cfgs = vec![
+        SysConfig { fill_factor: 2, event_per_zone: 1, ..Default::default() },
+        SysConfig { fill_factor: 4, event_per_zone: 2, shards: 2, ..Default::default() },
+        SysConfig { fill_factor: 4, event_per_zone: 4, ..Default::default() },
+    ];
     let mut cases = Vec::new();
     for (ci, cfg) in cfgs.iter().enumerate() {
         for q in &qs {
